@@ -367,7 +367,7 @@ func (m c12) Run(c *core.Ctx) {
 		c.Nontrivial("privacy nested")
 	}
 	// generated graphs
-	n := c.Pick(150, 3000)
+	n := c.Pick(150, 15000)
 	o := gen.Opts{MaxStmts: 22, MaxDepth: 4, ExprDepth: 2, Try: 0.4, Throw: 0.15, Funcs: 0.7, Shadow: 0.1, LogProb: 0.1, Globals: true, DeepRecursion: 10, Faults: 0.003, ImportProb: 0.3}
 	for i := 0; i < n; i++ {
 		if stopExploring(c) {
